@@ -187,8 +187,33 @@ fn rejection(part: usize, parts: usize) -> (u64, u64, u64, Vec<Viol>) {
                 accepted_ok(&h, &u).err()
             }
         };
+        // The same document through `Deserialize::deserialize_in_place` into live sketches (the entry point behind
+        // `#[serde(deserialize_with)]`-free containers such as Vec<H>::clone_from-style reuse): whether the call
+        // succeeds or fails, the sketch that is left must satisfy the constructor's invariants and work.
+        let bad = bad.or_else(|| {
+            for live_b in [4usize, 9] {
+                let mut live: H = HyperLogLog::with_hash(live_b, SeedHasher { seed: 7 });
+                for &x in &u {
+                    live.add_hashed(x.rotate_left(7) ^ 0x55);
+                }
+                let r = mccore::panics::catch(|| {
+                    let mut de = serde_json::Deserializer::from_str(doc);
+                    let r = <H as Deserialize>::deserialize_in_place(&mut de, &mut live);
+                    r.and_then(|_| de.end()).is_ok()
+                });
+                match r {
+                    Err(p) => return Some(format!("deserialize_in_place into a live b = {} sketch panicked: {}", live_b, p)),
+                    Ok(ok) => {
+                        if let Err(m) = accepted_ok(&live, &u) {
+                            return Some(format!("after deserialize_in_place into a live b = {} sketch returned {}: {}", live_b, if ok { "Ok" } else { "Err" }, m));
+                        }
+                    }
+                }
+            }
+            None
+        });
         if let Some(msg) = bad {
-            let kind = if msg.contains("panicked") { "accepted document panics later" } else { "invalid document accepted" };
+            let kind = if msg.contains("deserialize_in_place") { "in place leaves an invalid sketch" } else if msg.contains("panicked") { "accepted document panics later" } else { "invalid document accepted" };
             let sig = format!("hll deserialize {}", kind);
             if !viols.iter().any(|v| v.signature == sig) {
                 let shown: String = if doc.len() > 400 { format!("{}…", &doc[..400]) } else { doc.to_string() };
